@@ -184,6 +184,11 @@ def run_main(argv, sandbox=None, stdin_text=None, cpu_seconds=APP_CPU_SECONDS):
                 rc = e.code if isinstance(e.code, int) else (0 if e.code is None else 1)
             except AppTimeout:
                 rc = "timeout"
+            except Exception:  # noqa: BLE001 - an exception escaping main() is an observation
+                import traceback
+
+                rc = "exception"
+                err.write("\nEXCEPTION ESCAPED main():\n" + traceback.format_exc())
     finally:
         signal.setitimer(signal.ITIMER_VIRTUAL, 0)
         signal.signal(signal.SIGVTALRM, old_sig)
@@ -268,3 +273,27 @@ def rule_table():
                     }
         _rules_cache["t"] = table
     return _rules_cache["t"]
+
+
+class in_sandbox:
+    """context manager: cwd and temp directory are the sandbox's (for calls into pymarkdown.api)"""
+
+    def __init__(self, sandbox):
+        self.sb = sandbox
+
+    def __enter__(self):
+        self.old_cwd = os.getcwd()
+        self.old_tmp = tempfile.tempdir
+        self.old_env = os.environ.get("TMPDIR")
+        os.chdir(self.sb.cwd)
+        tempfile.tempdir = self.sb.tmp
+        os.environ["TMPDIR"] = self.sb.tmp
+        return self.sb
+
+    def __exit__(self, *a):
+        os.chdir(self.old_cwd)
+        tempfile.tempdir = self.old_tmp
+        if self.old_env is None:
+            os.environ.pop("TMPDIR", None)
+        else:
+            os.environ["TMPDIR"] = self.old_env
